@@ -36,6 +36,8 @@ type explorer struct {
 	run        *vk.Run
 	p          proto
 	al         []letter
+	letters    []int        // indices of the letters this configuration enumerates
+	onlyWith   map[int]bool // when set: only paths containing one of these letters are recorded (the others belong to another configuration)
 	b          bounds
 	shardDepth int
 	unit       int64
@@ -191,6 +193,14 @@ func (x *explorer) visit(path []token, nmsgs int, record bool) *runResult {
 		x.run.Count("internal_undeliverable", 1)
 		return res
 	}
+	if record && x.onlyWith != nil {
+		record = false
+		for _, t := range path {
+			if t.M >= 0 && x.onlyWith[t.M] {
+				record = true
+			}
+		}
+	}
 	if !record {
 		return res
 	}
@@ -216,11 +226,11 @@ func (x *explorer) visit(path []token, nmsgs int, record bool) *runResult {
 	}
 	if dev == 0 {
 		run.Count("message_sequences:"+pn, 1)
-		if res.Closed && nmsgs < x.b.maxLen {
+		if res.Closed && nmsgs < x.b.maxLen && x.onlyWith == nil {
 			// every extension of this sequence is undeliverable: covered by this node
 			n, pow := int64(0), int64(1)
 			for j := nmsgs + 1; j <= x.b.maxLen; j++ {
-				pow *= int64(len(x.al))
+				pow *= int64(len(x.letters))
 				n += pow
 			}
 			run.Count("sequences_covered_by_closed_prefix:"+pn, n)
@@ -296,7 +306,7 @@ func (x *explorer) explore(path []token, nmsgs, dev int, res *runResult, mine bo
 	if res.Closed || nmsgs >= x.b.maxLen || dev > x.b.dev(nmsgs+1) {
 		return
 	}
-	for li := range x.al {
+	for _, li := range x.letters {
 		child := clonePath(path, token{M: li})
 		runIt, rec := x.owner(len(child), mine)
 		if !runIt {
@@ -339,19 +349,25 @@ func TestCheck(t *testing.T) {
 		"a cancelled in-flight execution returns its context error after the canceller came to rest (order of the two reactions is fixed by the harness, not by goroutine timing)",
 		"memory-level races (H9) are outside this sequential exploration; see TestRace")
 	type cfg struct {
-		p proto
-		b bounds
+		p     proto
+		b     bounds
+		name  string
+		extra bool // the small alphabet around the three kinds of undeterminable documents
 	}
 	var cfgs []cfg
 	if run.Thorough() {
 		cfgs = []cfg{
-			{protoTransport, bounds{maxLen: 5, devByLen: []int{3, 3, 3, 3, 3, 1}}},
-			{protoLegacy, bounds{maxLen: 4, devByLen: []int{3, 3, 3, 3, 2}}},
+			{p: protoTransport, b: bounds{maxLen: 5, devByLen: []int{3, 3, 3, 3, 3, 1}}},
+			{p: protoLegacy, b: bounds{maxLen: 4, devByLen: []int{3, 3, 3, 3, 2}}},
+			{p: protoTransport, b: bounds{maxLen: 5, devByLen: []int{2, 2, 2, 2, 2, 1}}, extra: true},
+			{p: protoLegacy, b: bounds{maxLen: 4, devByLen: []int{2}}, extra: true},
 		}
 	} else {
 		cfgs = []cfg{
-			{protoTransport, bounds{maxLen: 4, devByLen: []int{2, 2, 2, 2, 1}}},
-			{protoLegacy, bounds{maxLen: 3, devByLen: []int{2}}},
+			{p: protoTransport, b: bounds{maxLen: 4, devByLen: []int{2, 2, 2, 2, 1}}},
+			{p: protoLegacy, b: bounds{maxLen: 3, devByLen: []int{2}}},
+			{p: protoTransport, b: bounds{maxLen: 4, devByLen: []int{1}}, extra: true},
+			{p: protoLegacy, b: bounds{maxLen: 3, devByLen: []int{1}}, extra: true},
 		}
 	}
 	if o := os.Getenv("C19_BOUNDS"); o != "" {
@@ -371,16 +387,25 @@ func TestCheck(t *testing.T) {
 			cfgs = append(cfgs, c)
 		}
 	}
-	for _, c := range cfgs {
-		run.Bound("max_messages:"+c.p.String(), c.b.maxLen)
+	for i := range cfgs {
+		c := &cfgs[i]
+		c.name = c.p.String()
+		if c.extra {
+			c.name += " (undeterminable-documents alphabet)"
+		}
+		run.Bound("max_messages:"+c.name, c.b.maxLen)
 		var d []string
 		for n := 0; n <= c.b.maxLen; n++ {
 			d = append(d, fmt.Sprintf("%d msgs: <=%d", n, c.b.dev(n)))
 		}
-		run.Bound("max_deviations:"+c.p.String(), strings.Join(d, ", "))
+		run.Bound("max_deviations:"+c.name, strings.Join(d, ", "))
+		li, _ := configLetters(c.p, c.extra)
+		var ns []string
+		for _, k := range li {
+			ns = append(ns, alphabet(c.p)[k].Name)
+		}
+		run.Bound("alphabet:"+c.name, ns)
 	}
-	run.Bound("alphabet:graphql-transport-ws", names(alphabet(protoTransport)))
-	run.Bound("alphabet:graphql-ws", names(alphabet(protoLegacy)))
 	run.Bound("virtual_intervals", fmt.Sprintf("update=%v init_timeout=%v keep_alive=%v read_error_timeout=%v", updateInterval, initTimeOut, keepAlive, readErrTimeOut))
 
 	if d, _ := strconv.Atoi(os.Getenv("VERIF_DEADLINE_S")); d > 0 {
@@ -390,6 +415,8 @@ func TestCheck(t *testing.T) {
 		}()
 	}
 	synctest.Test(t, func(t *testing.T) {
+		stopEngine := setupRealEngine()
+		defer func() { stopEngine(); synctest.Wait() }()
 		if run.Replay != "" {
 			var sc scenario
 			if err := run.ReplayInput(&sc); err != nil {
@@ -417,6 +444,7 @@ func TestCheck(t *testing.T) {
 		leaked := 0
 		for _, c := range cfgs {
 			x := &explorer{run: run, p: c.p, al: alphabet(c.p), b: c.b, shardDepth: 3, shrunk: map[string]*vk.Violation{}}
+			x.letters, x.onlyWith = configLetters(c.p, c.extra)
 			root := x.visit(nil, 0, run.Shard() == 0)
 			x.explore(nil, 0, 0, root, run.Shard() == 0)
 			leaked += x.leaked
@@ -433,6 +461,41 @@ func TestCheck(t *testing.T) {
 			os.Exit(0)
 		}
 	})
+}
+
+// configLetters: the main configuration of a protocol enumerates every letter of the
+// design's alphabet plus the first kind of undeterminable document (unparsable); the
+// extra configuration enumerates a small alphabet (init, query, subscription and
+// complete/stop for id 1, all three kinds of undeterminable documents) and records only
+// the paths that contain one of the two kinds the main configuration does not have.
+func configLetters(p proto, extra bool) (letters []int, onlyWith map[int]bool) {
+	al := alphabet(p)
+	first := -1
+	for i, l := range al {
+		if l.Undet {
+			first = i
+			break
+		}
+	}
+	if !extra {
+		for i := 0; i <= first; i++ {
+			letters = append(letters, i)
+		}
+		return letters, nil
+	}
+	onlyWith = map[int]bool{}
+	for i, l := range al {
+		switch {
+		case l.Undet:
+			letters = append(letters, i)
+			if i != first {
+				onlyWith[i] = true
+			}
+		case l.Kind == kInit, l.Kind == kSubscribe && l.ID == "1", l.Kind == kComplete && l.ID == "1":
+			letters = append(letters, i)
+		}
+	}
+	return letters, onlyWith
 }
 
 func names(al []letter) []string {
@@ -455,6 +518,8 @@ func TestOne(t *testing.T) {
 		t.Fatal(err)
 	}
 	synctest.Test(t, func(t *testing.T) {
+		stopEngine := setupRealEngine()
+		defer func() { stopEngine(); synctest.Wait() }()
 		res, v := judge(sc)
 		fmt.Println(sc.describe())
 		for _, e := range res.Log {
